@@ -38,19 +38,30 @@ class ClaferWriter(ModelToText):
 
 
 def fm_to_clafer(feature_model: FeatureModel) -> str:
-    result = read_features(feature_model.root, 0)
+    # The auxiliary clafers must not take the name of a feature of the model:
+    names = {feature.name for feature in feature_model.get_features()}
+    attributed = unused_name(ATTRIBUTED_FEATURE, names)
+    instance = unused_name(INSTANCE, names | {attributed})
+    result = read_features(feature_model.root, 0, attributed)
     # The root feature is always abstract in Clafer:
     result = f'abstract {result}'
     # Definition of attributes at the top of the model:
-    result = attributes_definition(feature_model) + '\n' + result
+    result = attributes_definition(feature_model, attributed) + '\n' + result
     for ctc in feature_model.get_constraints():
         result += read_constraints(ctc)
     # Create an instance
-    result += f'\n\n{INSTANCE} : {safename(feature_model.root.name)}\n'
+    result += f'\n\n{instance} : {safename(feature_model.root.name)}\n'
     return result
 
 
-def read_features(feature: Feature, tab_count: int) -> str:
+def unused_name(name: str, used_names: set[str]) -> str:
+    while name in used_names:
+        name += '_'
+    return name
+
+
+def read_features(feature: Feature, tab_count: int,
+                  attributed: str = ATTRIBUTED_FEATURE) -> str:
     tabs = '\t' * tab_count  # Indentation
     result = tabs
 
@@ -62,7 +73,7 @@ def read_features(feature: Feature, tab_count: int) -> str:
     # Feature
     result += safename(feature.name)
     if feature.get_attributes():
-        result += f' : {ATTRIBUTED_FEATURE}'
+        result += f' : {attributed}'
     if feature.is_optional():
         result += ' ?'
 
@@ -73,7 +84,7 @@ def read_features(feature: Feature, tab_count: int) -> str:
     # Children
     result += '\n'
     for child in feature.get_children():
-        result += read_features(child, tab_count)
+        result += read_features(child, tab_count, attributed)
     return result
 
 
@@ -146,13 +157,14 @@ def serialize_operand(node: Node) -> str:
     return f'({result})' if node.is_binary_op() else result
 
 
-def attributes_definition(feature_model: FeatureModel) -> str:
+def attributes_definition(feature_model: FeatureModel,
+                          attributed: str = ATTRIBUTED_FEATURE) -> str:
     attributes = {attribute.get_name(): parse_type_value(attribute.get_default_value())
                   for feature in feature_model.get_features()
                   for attribute in feature.get_attributes()}
     result = ''
     if attributes:
-        result = f'abstract {ATTRIBUTED_FEATURE}\n'
+        result = f'abstract {attributed}\n'
         for name, v_type in attributes.items():
             result += f'\t{safename(name)} -> {v_type}\n'
     return result
